@@ -42,6 +42,7 @@ structure Cell where
   passes : Nat
   n : Nat
   cap : Nat      -- the context is cancelled when `cap` ammo have been acquired (0 = never)
+  pad : Nat := 0 -- every entry of the ammo file is padded with this many bytes
   deriving Repr
 
 structure Obs where
@@ -61,7 +62,9 @@ def expected (limit passes n : Nat) : Option Nat :=
   | 0, p => some (p * n)
   | l, p => some (min l (p * n))
 
-def opsBound (delivered n : Nat) : Nat := 6 * (delivered + n + 1) + 8
+/-- Read+Seek calls that `sent` ammo of an `n`-entry file may cost: per pass one read per 512 bytes (the smallest
+buffer the decoders use) plus the end-of-file read, the seek and slack; three passes of slack; the constructor's reads -/
+def opsBound (sent n pad : Nat) : Nat := (sent / n + 3) * ((n * (pad + 256)) / 512 + 4) + 8
 
 /-- what a drain cell has to deliver: `min(cap, M)`, `cap = 0` = nobody cancels (such a cell must be bounded) -/
 def want (c : Cell) : Nat :=
@@ -81,8 +84,11 @@ def returnsOk (o : Obs) : Bool := o.run != .noreturn
 def runOk (o : Obs) : Bool := o.run == .nil || (o.run == .canceled && o.cut)
 /-- every consumer sees end of ammo -/
 def endOk (o : Obs) : Bool := o.end_ == .closed
-/-- no spin -/
-def spinOk (c : Cell) (o : Obs) : Bool := !bounded c || decide (o.ops ≤ opsBound o.delivered c.n)
+/-- no spin: a bounded provider sends at most its bound (also when the harness cut the cell earlier) -/
+def spinOk (c : Cell) (o : Obs) : Bool :=
+  match expected c.limit c.passes c.n with
+  | some m => decide (o.ops ≤ opsBound m c.n c.pad)
+  | none => true
 
 def holds (c : Cell) (o : Obs) : Bool :=
   countOk c o && o.seqOk && returnsOk o && runOk o && endOk o && spinOk c o
